@@ -358,6 +358,109 @@ def _idx(d):
     return out
 
 
+def date_arith(chk, prog, fn, orc, rule="R2.date_arith"):
+    """Seconds -> (day number, second of day, weekday, hour, minute, second), decided for every timestamp by the piecewise
+    quasi-linear case split of hv.symx.  The values are located from the fields of the returned DateTime, not by local names."""
+    from .. import symx
+    b = prog.bodies.get(fn)
+    if b is None:
+        return
+    aggs = [(i, st["rv"]) for i, blk in enumerate(b.blocks) for st in blk["stmts"]
+            if st.get("rv") and st["rv"].get("k") == "agg" and st["rv"].get("adt", "").endswith("date::DateTime")]
+    chk.floor("DateTime construction in From<i64>", len(aggs), 1)
+    if not aggs:
+        return
+    rv = aggs[0][1]
+    epoch = orc["march_01_2000"] if "march_01_2000" in orc else 951868800
+    wd0 = orc["weekday_of_2000_03_01"]
+
+    def user_local(op):
+        """follow `as` casts / copies from the field operand to the (possibly re-assigned) source local"""
+        l = core.op_local(op)
+        for _ in range(6):
+            ds = b.defs().get(l, [])
+            if len(ds) == 1 and ds[0][2] == "assign" and not ds[0][3]["pl"]["p"] and ds[0][3]["rv"]["k"] in ("use", "cast") \
+                    and core.op_local(ds[0][3]["rv"]["o"]) is not None and not ds[0][3]["rv"]["o"]["pl"]["p"]:
+                l = core.op_local(ds[0][3]["rv"]["o"])
+            else:
+                break
+        return l
+
+    fld = {name: user_local(rv["ops"][i]) for i, name in enumerate(rv["fields"])}
+
+    def multi(l):
+        return len(symx.def_blocks(b, l)) > 1
+
+    def value_of(l):
+        pieces, _ = symx.final_value(prog, b, l)
+        return symx.expand(prog, b, pieces, keep=multi)
+
+    def one_symbol(pieces):
+        ss = set()
+        for conds, e in pieces:
+            ss |= symx.syms(e)
+            for c, _ in conds:
+                ss |= symx.syms(c)
+        return ss
+
+    DAYNO = {"what": "day number", "full": lambda t: (t - epoch) // 86400, "full_period": 86400}
+    SOD = {"what": "second of day", "full": lambda t: (t - epoch) % 86400, "full_period": 86400}
+    FIELDS = {
+        "weekday": {"stage": lambda d: (d + wd0) % 7, "stage_period": 7, "via": DAYNO, "full": lambda t: ((t - epoch) // 86400 + wd0) % 7, "full_period": 604800,
+                    "text": "weekday == (day number + 3) mod 7 (2000-03-01 was a Wednesday)", "why": "the weekday printed in Date / Last-Modified / Expires headers is wrong"},
+        "hour": {"stage": lambda r: r // 3600, "stage_domain": (0, 86399), "via": SOD, "full": lambda t: (t - epoch) % 86400 // 3600, "full_period": 86400,
+                 "text": "hour == second of day / 3600", "why": "the hour field is wrong"},
+        "minute": {"stage": lambda r: r // 60 % 60, "stage_domain": (0, 86399), "via": SOD, "full": lambda t: (t - epoch) % 86400 // 60 % 60, "full_period": 86400,
+                   "text": "minute == second of day / 60 mod 60", "why": "the minute field is wrong"},
+        "second": {"stage": lambda r: r % 60, "stage_domain": (0, 86399), "via": SOD, "full": lambda t: (t - epoch) % 86400 % 60, "full_period": 86400,
+                   "text": "second == second of day mod 60", "why": "the second field is wrong"},
+    }
+    done_stage = {}
+
+    def run(site, pieces, x, ref, period, domain, why):
+        ok, wit, info = symx.decide_forall(pieces, x, ref, period, domain=domain)
+        detail = "" if ok else f"differs at {symx.show(x)} = {wit}: computed {symx.select(pieces, {x: wit})}, required {ref(wit)}; {why}"
+        chk.ob(rule, fn, site, ok, detail, where=b.file)
+        chk.extra.setdefault("date_arith", []).append({"clause": site, **info})
+
+    for name, spec in FIELDS.items():
+        site = spec["text"]
+        try:
+            pieces = value_of(fld[name])
+            ss = one_symbol(pieces)
+            if len(ss) != 1:
+                raise symx.NotDecidable(f"depends on {[symx.show(x) for x in ss]}")
+            x = next(iter(ss))
+            if x[1] == 1:
+                run(site + ", composed with the timestamp -> " + spec["via"]["what"] + " step, for every timestamp", pieces, x, spec["full"], spec["full_period"], None, spec["why"])
+                continue
+            run(site + f", for every {spec['via']['what']}", pieces, x, spec["stage"], spec.get("stage_period", 1), spec.get("stage_domain"), spec["why"])
+            key = (spec["via"]["what"], x[1])
+            if key in done_stage:
+                continue
+            done_stage[key] = True
+            via = spec["via"]
+            p2 = value_of(x[1])
+            s2 = one_symbol(p2)
+            if len(s2) != 1 or next(iter(s2))[1] != 1:
+                raise symx.NotDecidable(f"{via['what']} depends on {[symx.show(y) for y in s2]}, not on the timestamp alone")
+            want = "floor((timestamp - 951868800) / 86400)" if via is DAYNO else "(timestamp - 951868800) mod 86400, in 0..86399"
+            run(f"{via['what']} == {want}, for every timestamp", p2, next(iter(s2)), via["full"], via["full_period"], None,
+                "offsets before the anchor / exact day boundaries land on the wrong day or give hour 24")
+        except symx.NotDecidable as e:
+            chk.ob(rule, fn, site, False, f"not decidable by the quasi-linear case split: {e}", where=b.file)
+    sods = [k for k in done_stage if k[0] == "second of day"]
+    chk.ob(rule, fn, "hour, minute and second are computed from one second-of-day value", len(sods) <= 1, f"{sods}")
+    # the remaining fields are updated inside the month loop: outside the fragment
+    nd = []
+    for name in ("year", "month", "day"):
+        try:
+            value_of(fld[name])
+        except symx.NotDecidable as e:
+            nd.append(f"{name}: {e}")
+    chk.extra["date_arith_not_decided"] = nd
+
+
 def dates(chk, prog, orc):
     P = "humphrey::http::date::"
     def cv(name):
@@ -385,14 +488,7 @@ def dates(chk, prog, orc):
     fs = prog.impl_fn(r"^<humphrey::http::date::DateTime as std::convert::From<i64>>$", "from")
     chk.floor("DateTime::from(i64)", len(fs), 1)
     if fs:
-        h = prog.hir[fs[0]]["body"]
-        # weekday = (days + 3) % 7
-        wd = None
-        for n in hir_walk(h):
-            if n.get("s") == "Let" and n.get("pat", {}).get("name") == "weekday":
-                wd = _canon(n["init"])
-        want = ("Rem", ("aff", (("", orc["weekday_of_2000_03_01"]), ("days", 1))), ("aff", (("", 7),)))
-        chk.ob("R1.dates", fs[0], "weekday = (days since 2000-03-01 + 3) mod 7 (that day was a Wednesday)", wd == want, f"{wd}")
+        date_arith(chk, prog, fs[0], orc)
     ts = prog.impl_fn(r"^<humphrey::http::date::DateTime as std::string::ToString>$", "to_string") + prog.impl_fn(r"^<humphrey::http::date::DateTime as std::fmt::Display>$", "fmt")
     chk.floor("DateTime to_string", len(ts), 1)
     if ts:
